@@ -1,5 +1,5 @@
 /* Positional accessors, typed getters, lock toggles (C11 C13 C09). */
-#include "model_contracts.h"
+#include "vf_harness.h"
 size_t vf_gk, vf_gj, vf_gc;
 
 #define VEC_OK(v, T) VF_VEC_OK(v, T)
@@ -9,13 +9,14 @@ size_t vf_gk, vf_gj, vf_gc;
  *   clause 2: otherwise => std::out_of_range  (for every 64-bit idx)                                     */
 #define POS_ACCESSOR(FN, CQ, SELF_T, FIELD, ELEM_T)                                                                    \
   CQ ELEM_T *contract_##FN(CQ SELF_T *self, size_t idx)                                                                \
-  __CPROVER_requires(vf_exc == 0 && __CPROVER_is_fresh(self, sizeof(*self)) && VEC_OK(self->FIELD, ELEM_T))            \
+  __CPROVER_requires(vf_exc == 0 && __CPROVER_r_ok(self, sizeof(*self)) && VEC_OK(self->FIELD, ELEM_T))            \
   __CPROVER_ensures(idx < self->FIELD.size ==> (vf_exc == 0 && __CPROVER_return_value == &self->FIELD.data[idx]))      \
   __CPROVER_ensures(idx >= self->FIELD.size ==> vf_exc == VF_EXC_out_of_range)                                        \
   __CPROVER_assigns(vf_exc);                                                                                           \
   void h_##FN(void)                                                                                                    \
   {                                                                                                                    \
-    CQ SELF_T *self;                                                                                                   \
+    SELF_T *self = (SELF_T *)vf_alloc(sizeof(*self));                                                                  \
+    VF_MK_VEC(self->FIELD, ELEM_T);                                                                                    \
     size_t idx;                                                                                                        \
     FN(self, idx);                                                                                                     \
     __CPROVER_assert(0, "VACUITY_CANARY");                                                                             \
@@ -37,24 +38,25 @@ POS_ACCESSOR(Header__eventsLabel__sz, const, struct Header, _eventsLabel, vf_str
 
 /* by-value header event accessors */
 float contract_Header__eventsTime__sz(const struct Header *self, size_t idx)
-__CPROVER_requires(vf_exc == 0 && __CPROVER_is_fresh(self, sizeof(*self)) && VEC_OK(self->_eventsTime, float))
+__CPROVER_requires(vf_exc == 0 && __CPROVER_r_ok(self, sizeof(*self)) && VEC_OK(self->_eventsTime, float))
 /*@ C11 C13 : Header_eventsTime_at.in-range */
 __CPROVER_ensures(idx < self->_eventsTime.size ==> (vf_exc == 0 &&
-    *(const unsigned *)&self->_eventsTime.data[idx] == vf_bits_of(__CPROVER_return_value)))
+    VF_FBITS(self->_eventsTime.data[idx]) == vf_bits_of(__CPROVER_return_value)))
 /*@ C11 C13 : Header_eventsTime_at.out-of-range */
 __CPROVER_ensures(idx >= self->_eventsTime.size ==> vf_exc == VF_EXC_out_of_range)
 __CPROVER_assigns(vf_exc);
 
 void h_Header__eventsTime__sz(void)
 {
-  const struct Header *self;
+  struct Header *self = (struct Header *)vf_alloc(sizeof(*self));
+  VF_MK_VEC(self->_eventsTime, float);
   size_t idx;
   Header__eventsTime__sz(self, idx);
   __CPROVER_assert(0, "VACUITY_CANARY");
 }
 
 size_t contract_Header__eventsDisplay__sz(const struct Header *self, size_t idx)
-__CPROVER_requires(vf_exc == 0 && __CPROVER_is_fresh(self, sizeof(*self)) && VEC_OK(self->_eventsDisplay, size_t))
+__CPROVER_requires(vf_exc == 0 && __CPROVER_r_ok(self, sizeof(*self)) && VEC_OK(self->_eventsDisplay, size_t))
 /*@ C11 C13 : Header_eventsDisplay_at.in-range */
 __CPROVER_ensures(idx < self->_eventsDisplay.size ==> (vf_exc == 0 && __CPROVER_return_value == self->_eventsDisplay.data[idx]))
 /*@ C11 C13 : Header_eventsDisplay_at.out-of-range */
@@ -63,7 +65,8 @@ __CPROVER_assigns(vf_exc);
 
 void h_Header__eventsDisplay__sz(void)
 {
-  const struct Header *self;
+  struct Header *self = (struct Header *)vf_alloc(sizeof(*self));
+  VF_MK_VEC(self->_eventsDisplay, size_t);
   size_t idx;
   Header__eventsDisplay__sz(self, idx);
   __CPROVER_assert(0, "VACUITY_CANARY");
@@ -72,13 +75,13 @@ void h_Header__eventsDisplay__sz(void)
 /* ---- type-guarded value getters: the values when the type matches, std::invalid_argument otherwise */
 #define TYPED_GETTER(FN, VEC_T, FIELD, DT)                                                                             \
   const VEC_T *contract_##FN(const struct Parameter *self)                                                             \
-  __CPROVER_requires(vf_exc == 0 && __CPROVER_is_fresh(self, sizeof(*self)))                                            \
+  __CPROVER_requires(vf_exc == 0 && __CPROVER_r_ok(self, sizeof(*self)))                                            \
   __CPROVER_ensures(self->_data_type == (DT) ==> (vf_exc == 0 && __CPROVER_return_value == &self->FIELD))              \
   __CPROVER_ensures(self->_data_type != (DT) ==> vf_exc == VF_EXC_invalid_argument)                                    \
   __CPROVER_assigns(vf_exc);                                                                                           \
   void h_##FN(void)                                                                                                    \
   {                                                                                                                    \
-    const struct Parameter *self;                                                                                      \
+    struct Parameter *self = (struct Parameter *)vf_alloc(sizeof(*self));                                              \
     FN(self);                                                                                                          \
     __CPROVER_assert(0, "VACUITY_CANARY");                                                                             \
   }
@@ -91,12 +94,12 @@ TYPED_GETTER(Parameter__valuesAsString, vf_vec_string, _param_data_string, -1) /
 /* ---- lock toggles change only the flag (frame condition) */
 #define LOCK_TOGGLE(FN, SELF_T, VAL)                                                                                   \
   void contract_##FN(SELF_T *self)                                                                                     \
-  __CPROVER_requires(vf_exc == 0 && __CPROVER_is_fresh(self, sizeof(*self)))                                            \
+  __CPROVER_requires(vf_exc == 0 && __CPROVER_r_ok(self, sizeof(*self)))                                            \
   __CPROVER_ensures(self->_isLocked == (VAL) && vf_exc == 0)                                                           \
   __CPROVER_assigns(self->_isLocked);                                                                                  \
   void h_##FN(void)                                                                                                    \
   {                                                                                                                    \
-    SELF_T *self;                                                                                                      \
+    SELF_T *self = (SELF_T *)vf_alloc(sizeof(*self));                                                                  \
     FN(self);                                                                                                          \
     __CPROVER_assert(0, "VACUITY_CANARY");                                                                             \
   }
